@@ -66,7 +66,8 @@ class Target:
         # names whose declared order is NOT lexicographic (HDF5 groups list members alphabetically)
         self.parameters = [PARAM_NAMES[i] for i in range(self.dims)]
         self.prior_bounds = {p: [c.lo, c.hi] for p, c in zip(self.parameters, self.coords)}
-        self.periodic_parameters = [p for p, c in zip(self.parameters, self.coords) if c.kind == "vonmises"]
+        # listed in the opposite order to `parameters`: the list is a set of names, its order carries no meaning
+        self.periodic_parameters = [p for p, c in zip(self.parameters, self.coords) if c.kind == "vonmises"][::-1]
         self.lo = np.array([c.lo for c in self.coords])
         self.hi = np.array([c.hi for c in self.coords])
         self.mu = np.array([c.mu for c in self.coords])
@@ -130,6 +131,10 @@ def family(rng, dims=None, kinds=None):
     """Draw a random member of the analytic family (1-4 dims)."""
     d = int(dims or rng.integers(1, 5))
     coords = []
+    used_lo = []
+    if not kinds and d >= 2 and rng.random() < 0.12:
+        # two periodic coordinates (their intervals differ with probability 2/3)
+        kinds = ["vonmises", "vonmises"] + [str(rng.choice(["box", "hug"])) for _ in range(d - 2)]
     for i in range(d):
         kind = (kinds[i] if kinds else rng.choice(["box", "hug", "vonmises"], p=[0.5, 0.3, 0.2]))
         if kind == "box":
@@ -147,7 +152,10 @@ def family(rng, dims=None, kinds=None):
             mu = (lo - off * s) if side == 0 else (hi + off * s)
             coords.append(Coord("box", lo, hi, mu, s))
         else:
-            lo = float(rng.choice([0.0, -math.pi, 1.0]))
+            # several periodic coordinates of one target get different intervals
+            free = [v for v in (0.0, -math.pi, 1.0) if v not in used_lo] or [0.0, -math.pi, 1.0]
+            lo = float(rng.choice(free))
+            used_lo.append(lo)
             hi = lo + 2 * math.pi
             mu = lo + float(rng.choice([0.0, 0.05, -0.05, 1.0]))  # mode on / near the seam
             kappa = float(rng.uniform(1.0, 6.0))
